@@ -42,4 +42,56 @@ def CsfIn.wf (i : CsfIn) : Bool :=
   i.others.all (fun (c, p, a) => decide (0 ≤ c) && decide (0 ≤ p) && decide (0 < a)) &&
   (!i.sameDenom || (i.navP == 1 && i.navA == 1))
 
+/-! ### what a recipient of message fees is owed by one transaction -/
+
+/-- the documented share of recipient `r` in denom `d` of ONE fee `amt den` split at `bips` for
+`rcpt`: the exact `amt·bips/10000` rounded down. -/
+def shareOf (r : String) (d : Denom) (den : Denom) (amt : Int) (bips : Nat) (rcpt : String) : Int :=
+  if rcpt = r ∧ den = d ∧ 0 < amt then (amt * (bips : Int)) / 10000 else 0
+
+/-- the assessed custom fee in the fee denom (usd at `rate` nhash per usd mil) -/
+def assessAmt (rate : Nat) (den : Denom) (amt : Int) : Int := if den = "usd" then amt * (rate : Int) else amt
+
+/-- the share of `r` in the fee configured for a message's type: explicit basis points — every
+value from 0 to 10,000 — as given, the default 5,000 when none are given -/
+def cfgWant (r : String) (d : Denom) : Option PayCfg → Int
+  | some c => shareOf r d c.den c.amt (c.bips.getD 5000) c.rcpt
+  | none => 0
+
+/-- the share of `r` in an assessed custom fee: explicit basis points as given, the whole (10,000)
+when none are given -/
+def assessWant (rate : Nat) (r : String) (d : Denom) : Option (Denom × Int × Option Nat × String) → Int
+  | some (den, amt, bs, rcpt) => shareOf r d "nhash" (assessAmt rate den amt) (bs.getD 10000) rcpt
+  | none => 0
+
+/-- the documented shares of recipient `r` in denom `d` of ONE message -/
+def msgWant (rate : Nat) (cfg : List PayCfg) (r : String) (d : Denom) (m : PayMsg) : Int :=
+  cfgWant r d (cfg.find? (·.typ = m.typ)) + assessWant rate r d m.assess
+
+/-- Documentation (x/msgfees/spec): what recipient `r` is owed in denom `d` by the transaction is
+the sum of its shares over the messages. -/
+def payWant (rate : Nat) (cfg : List PayCfg) (msgs : List PayMsg) (r : String) (d : Denom) : Int :=
+  (msgs.map (msgWant rate cfg r d)).sum
+
+/-- the additional fees of the transaction in denom `d` (what the fee offered has to cover on top
+of the base fee) -/
+def payTotal (rate : Nat) (cfg : List PayCfg) (msgs : List PayMsg) (d : Denom) : Int :=
+  (msgs.map fun m =>
+    (match cfg.find? (·.typ = m.typ) with
+     | some c => if c.den = d then c.amt else 0
+     | none => 0) +
+    (match m.assess with
+     | some (den, amt, _, _) => if d = "nhash" then assessAmt rate den amt else 0
+     | none => 0)).sum
+
+/-- the on-chain domain of a `paytx` case: proposals and messages that pass `ValidateBasic`
+(positive fees, basis points 0..10,000 and only with a recipient, one fee per msg type, assessed
+amounts in usd or the fee denom) -/
+def payWf (cfg : List PayCfg) (msgs : List PayMsg) : Bool :=
+  cfg.all (fun c => decide (0 < c.amt) && decide (c.bips.getD 0 ≤ 10000) && !(c.rcpt = "" && c.bips.isSome)) &&
+  (cfg.map (·.typ)).Nodup &&
+  msgs.all (fun m => match m.assess with
+    | some (den, amt, bs, _) => decide (0 < amt) && decide (bs.getD 0 ≤ 10000) && (den = "usd" || den = "nhash")
+    | none => true)
+
 end PvModel.Fees
